@@ -291,10 +291,12 @@ def gen_py_case(rng, layer):
     if rng.below(3) == 0:
         kw["penalty"] = rng.choice([0.5, 1.0, round(rng.uniform(0, 3), 3)])
     if rng.below(3) == 0:
+        # psi up to the shortest series; one psi setting in four goes up to the longest series + 1 (see driver_c07.c)
+        plim = minlen + 1 if rng.below(4) else max(len(x) for x in series) + 2
         if rng.below(2):
-            kw["psi"] = rng.below(minlen + 1)
+            kw["psi"] = rng.below(plim)
         else:
-            kw["psi"] = [rng.below(minlen + 1) for _ in range(4)]
+            kw["psi"] = [rng.below(plim) for _ in range(4)]
     if rng.below(4) == 0:
         kw["use_pruning"] = True
     if rng.below(3) == 0:
